@@ -228,6 +228,14 @@ func genC20(r *rand.Rand, t *Trace, thorough bool) {
 	for it := 0; it < nt; it++ {
 		kind := 1 + r.Intn(3)
 		p, ntrain := rndParams(r, kind, false)
+		if it%3 == 0 {
+			// training sets up to the quantifier's 500 vectors over few clusters (hundreds of points per cluster)
+			ntrain = 300 + r.Intn(201)
+			if kind != 2 {
+				p.nlist = 1 + r.Intn(4)
+			}
+			t.Stat("train_twice.large_training_set")
+		}
 		build := func() comet.VectorIndex {
 			idx, _ := p.build()
 			return idx
@@ -253,11 +261,21 @@ func genC20(r *rand.Rand, t *Trace, thorough bool) {
 			b.Add(*comet.NewVectorNodeWithID(uint32(i+1), cloneVec(v)))
 		}
 		diffs := 0
+		// identical input, identical output: the learned centroids and codebooks themselves ...
+		sa, sb := comet.VerifSnapshot(a), comet.VerifSnapshot(b)
+		if sa.Trained != sb.Trained || !vecsEqualBits(sa.Centroids, sb.Centroids) || !vecsEqualBits(sa.Codebooks, sb.Codebooks) {
+			diffs++
+		}
+		// ... and the answers, at full probe and with a single probed cluster
 		nqq := 8
 		for i := 0; i < nqq; i++ {
 			q := histVec(r, p.dim, 1)
-			ra, ea := a.NewSearch().WithQuery(cloneVec(q)).WithK(5).WithNProbes(p.nlist).Execute()
-			rb, eb := b.NewSearch().WithQuery(cloneVec(q)).WithK(5).WithNProbes(p.nlist).Execute()
+			np := p.nlist
+			if i%2 == 1 {
+				np = 1
+			}
+			ra, ea := a.NewSearch().WithQuery(cloneVec(q)).WithK(5).WithNProbes(np).Execute()
+			rb, eb := b.NewSearch().WithQuery(cloneVec(q)).WithK(5).WithNProbes(np).Execute()
 			if fingerprintVec(ra, ea) != fingerprintVec(rb, eb) {
 				diffs++
 			}
